@@ -56,6 +56,16 @@ fn main() {
     let extra: Arc<Vec<RunPlan>> = Arc::new(if extra_file.is_empty() { Vec::new() } else {
         std::fs::read_to_string(&extra_file).map(|t| t.lines().filter_map(|l| serde_json::from_str::<RunPlan>(l).ok()).collect()).unwrap_or_default()
     });
+    // full-duplex schedules (rig::make_duplex_plan): appended to the extra plans, i.e. first in the queue
+    let duplex: usize = arg("--duplex", "0").parse().unwrap_or(0);
+    let extra: Arc<Vec<RunPlan>> = if duplex == 0 || fixed.is_some() { extra } else {
+        let mut v: Vec<RunPlan> = (*extra).clone();
+        for k in 0..duplex {
+            let dseed = mix(seed.wrapping_mul(0x9E37_79B9_7F4A_7C15) ^ 0xD0 ^ ((k as u64 + 1) << 20));
+            v.push(make_duplex_plan(200_000 + k as u64, dseed, k));
+        }
+        Arc::new(v)
+    };
     let generated = fixed.as_ref().map(|f| f.len()).unwrap_or(runs);
     let runs = generated + extra.len();
     let all_plans: Arc<Mutex<Vec<RunPlan>>> = Arc::new(Mutex::new(Vec::new()));
@@ -155,11 +165,11 @@ fn main() {
             }
         }
     }
-    writeln!(f, "{}", json!({"ev":"msg","run":-1,"s":0,"d":"req","ns":0,"nr":0,"companion_aborted":false,"park_hol":false,"budget_kill":false,"pair":""})).unwrap();
+    writeln!(f, "{}", json!({"ev":"msg","run":-1,"s":0,"d":"req","ns":0,"nr":0,"companion_aborted":false,"park_hol":false,"budget_kill":false,"no_aborts":false,"pair":""})).unwrap();
     n_events += 1;
     f.flush().unwrap();
     vh::h2kit::emit_out(&json!({"kind":"summary","runs":n_runs,"messages":n_msgs,"events":n_events,"bytes":bytes_total,"by_kind":by_kind,
         "distinct_classes":classes.len(),"inconclusive":inconclusive,"errors":errors,"setup_error":Value::Null,"worker_problem":worker_problem,
-        "samples":samples,"stalled":stalled,"parks":{"snapshots":park_counts().0,"written":park_counts().1,"distinct":park_counts().2},"backend_connections":rig.sh.backend_conns.load(Ordering::Relaxed),"wall_s":t0.elapsed().as_secs_f64()}));
+        "samples":samples,"stalled":stalled,"parks":{"snapshots":park_counts().0,"written":park_counts().1,"distinct":park_counts().2,"half_frame_wu_pending":half_frame_counts().0,"half_frame_zero_deferred":half_frame_counts().1},"backend_connections":rig.sh.backend_conns.load(Ordering::Relaxed),"wall_s":t0.elapsed().as_secs_f64()}));
     std::process::exit(0);
 }
